@@ -368,6 +368,76 @@ def phrase_task(t):
     return acc.result()
 
 
+# ---------------------------------------------------------------------------
+# term-expanding patterns: every pattern string up to a length over a small
+# alphabet x a lexicon holding every short word
+
+PAT_WORDS = [u"".join(w) for n in (1, 2, 3) for w in itertools.product("abc", repeat=n)]
+
+
+def pattern_space(maxlen_regex, maxlen_wild):
+    """[(kind, pattern)] simplest first.  Regex: every string that compiles;
+    wildcard: every string over {a, b, *, ?}; prefix: every word prefix."""
+    import re
+    import warnings
+    out = []
+    for n in range(0, 4):
+        for t in itertools.product("abc", repeat=n):
+            out.append(("prefix", u"".join(t)))
+    for n in range(1, maxlen_wild + 1):
+        for t in itertools.product("ab*?", repeat=n):
+            out.append(("wild", u"".join(t)))
+    with warnings.catch_warnings():
+        warnings.simplefilter("ignore")
+        for n in range(1, maxlen_regex + 1):
+            alpha = "ab.*|()?" if n <= maxlen_regex - 1 else "ab|()"
+            for t in itertools.product(alpha, repeat=n):
+                pat = u"".join(t)
+                try:
+                    re.compile(pat)
+                except Exception:
+                    continue
+                out.append(("regex", pat))
+    return out
+
+
+def pattern_task(t):
+    seed, nsl, sl, maxlen_regex, maxlen_wild = t
+    acc = core.Acc()
+    words = list(PAT_WORDS)
+    rot = seed % len(words)
+    words = words[rot:] + words[:rot]
+    docs = [{"key": "k%d" % i, "live": True, "s": [], "w": [w] if i % 7 else [w, words[(i * 5) % len(words)]],
+             "p": [], "n": None, "d": None, "b": None} for i, w in enumerate(words)]
+    n = len(docs)
+    layout = {"segs": [n - n // 3, n // 3], "deleted": [2, n - 1], "blocklimit": 2}
+    ix, docs = corpus.build_index(docs, layout)
+    try:
+        model = corpus.make_model(docs)
+        with ix.searcher() as s:
+            km = keymap(s)
+            for i, (kind, pat) in enumerate(pattern_space(maxlen_regex, maxlen_wild)):
+                if i % nsl != sl:
+                    continue
+                ast = [kind, "w", pat]
+                ref = qast.ref_eval(ast, model)
+                acc.count("pattern_cases")
+                if 0 < len(ref) < n - 2:
+                    acc.count("distinct_nontrivial")
+                for path in ("qdocs", "none"):
+                    acc.count("evaluations")
+                    k2, detail = outcome(s, model, ast, path, km)
+                    if k2 is None:
+                        continue
+                    feats = "".join(sorted(set(c for c in pat if not c.isalnum())))
+                    acc.violation("pattern:%s[%s]|%s|%s" % (kind, feats, path, k2),
+                                  {"kind": "pattern", "seed": seed, "ast": ast, "path": path},
+                                  "%s %r via path %s %s" % (kind, pat, path, detail))
+    finally:
+        corpus.destroy_index(ix)
+    return acc.result()
+
+
 class _SmallPartArrayUnion(object):
     """Context manager: Or/multi-term queries build their ArrayUnionMatcher
     with a tiny part size so part boundaries are crossed on a 4-document
@@ -399,6 +469,8 @@ def task(t):
     """One (D, seed, layout, query family, slice) unit."""
     if t[0] == "phrase":
         return phrase_task(t[1:])
+    if t[0] == "pattern":
+        return pattern_task(t[1:])
     D, seed, layout, family, nslices, sl, paths_mode = t
     if layout.get("array_partsize"):
         with _SmallPartArrayUnion(layout["array_partsize"]):
@@ -464,6 +536,8 @@ def run(ctx):
             nlay += 1
             for sl in range(4):
                 tasks.append((4, seed, lay, "array", 4, sl, "full" if ctx.tier != "quick" else "mixed"))
+    for sl in range(16):
+        tasks.append(("pattern", seed, 16, sl, 7 if ctx.tier == "quick" else 8, 4 if ctx.tier == "quick" else 5))
     tasks.append(("phrase", seed, {"blocklimit": 2}, 5))
     tasks.append(("phrase", seed, {"blocklimit": None, "storage": "file"}, 3))
     ctx.extra["index_variants"] = nlay
@@ -472,7 +546,10 @@ def run(ctx):
                 "(one term per subset of documents => every posting-list alignment) x every "
                 "segment composition x deletion family x access path; a case (index variant, "
                 "query) is non-trivial when the reference result is neither empty nor all live "
-                "documents; cases are enumerated without repetition so each counted case is distinct")
+                "documents; cases are enumerated without repetition so each counted case is distinct; plus every "
+                "term-expanding pattern: every Regex string that compiles up to length 7 (thorough 8; alphabet "
+                "a b . * | ( ) ? below the maximal length, a b | ( ) at it), every Wildcard string up to length 4 (5) over a b * ?, every "
+                "Prefix, against a lexicon holding every word of length <= 3 over {a, b, c}")
     ctx.assumptions = ["reference evaluator mc/qast.py states the documented meaning",
                        "documents are identified by their stored unique key",
                        "fuzzy leaves restricted to words where Damerau and Levenshtein agree (C19 covers the rest)"]
